@@ -366,6 +366,12 @@ func C16(c *Ctx) {
 		for b := range l.Blocks {
 			for _, in := range b.Instrs {
 				if mu, ok := in.(*ssa.MapUpdate); ok {
+					// the bytes recorded for a machine are its own: not a view of storage that lives across iterations
+					if why := sharedBytes(mu.Value, l, 0); why != "" {
+						c.R.Violate("C16-R3", "WriteState: each record's bytes are storage of its own", c.pos(mu), "the bytes recorded for one machine are a view of "+why+", which the next iteration overwrites before the transaction writes them: a batch of several machines stores one machine's state under another's id")
+					} else {
+						c.R.Discharge("C16-R3", "WriteState: each record's bytes are storage of its own", c.pos(mu), "the recorded value does not alias a buffer that outlives the iteration")
+					}
 					if _, isMake := mu.Map.(*ssa.MakeMap); isMake {
 						updBlocks[b] = true
 					} else if cell := cellOf(mu.Map); cell != nil {
@@ -834,4 +840,51 @@ func isWriteIface(c *Ctx, cl *ssa.Call, writeState *ssa.Function) bool {
 		}
 	}
 	return false
+}
+
+// sharedBytes: if v is (a sub-slice of) the contents of a buffer or array that is created outside loop l, a description
+// of that storage; "" otherwise.
+func sharedBytes(v ssa.Value, l *flow.Loop, depth int) string {
+	if v == nil || depth > 8 {
+		return ""
+	}
+	switch x := v.(type) {
+	case *ssa.Phi:
+		for _, e := range x.Edges {
+			if w := sharedBytes(e, l, depth+1); w != "" {
+				return w
+			}
+		}
+	case *ssa.Slice:
+		if al, ok := x.X.(*ssa.Alloc); ok && !l.Blocks[al.Block()] {
+			return "an array made before the loop (" + al.Comment + ")"
+		}
+		return sharedBytes(x.X, l, depth+1)
+	case *ssa.UnOp:
+		if al, ok := x.X.(*ssa.Alloc); ok {
+			for _, sv := range storedInto(al) {
+				if w := sharedBytes(sv, l, depth+1); w != "" {
+					return w
+				}
+			}
+		}
+	case *ssa.Extract:
+		return sharedBytes(x.Tuple, l, depth+1)
+	case *ssa.Call:
+		n := ssau.CalleeName(x)
+		switch {
+		case n == "(*bytes.Buffer).Bytes" || n == "(*bytes.Buffer).Next" || n == "(*bufio.Scanner).Bytes":
+			recv := x.Common().Args[0]
+			if al, ok := recv.(*ssa.Alloc); ok && l.Blocks[al.Block()] {
+				return ""
+			}
+			if cl, ok := recv.(*ssa.Call); ok && l.Blocks[cl.Block()] {
+				return ""
+			}
+			return "a buffer that is kept across iterations (" + n + ")"
+		case strings.HasPrefix(n, "bytes.Trim") || n == "bytes.TrimSpace":
+			return sharedBytes(x.Common().Args[0], l, depth+1)
+		}
+	}
+	return ""
 }
